@@ -1518,7 +1518,16 @@ class Exec(Engine):
             rep.missing = str(e)
             return rep
         rep.paths = len(outs)
+        # In a postcondition a parameter name denotes the value the CALLER passed (its entry value), exactly as the clause is
+        # read when it is assumed at a call site -- also where the body rebinds the name.  Exceptions: declared out-parameters
+        # (final content of a container updated in place).
+        a_ = fn.args
+        entry_names = [x.arg for x in a_.posonlyargs + a_.args + a_.kwonlyargs] + ([a_.vararg.arg] if a_.vararg else []) + ([a_.kwarg.arg] if a_.kwarg else [])
+        entry_names = [n for n in entry_names if n not in c.out_params and n in old.env]
         for pk, o in enumerate(outs):
+            o.st.final_params = {n_: o.st.env[n_] for n_ in entry_names if n_ in o.st.env}     # for trace-only helpers
+            for n_ in entry_names:
+                o.st.env[n_] = old.env[n_]
             if o.st.taint:
                 rep.tainted_paths.append(list(o.st.taint))
             # vacuity guard: the hypotheses accumulated along every explored path must be satisfiable
